@@ -104,7 +104,7 @@ def add_affinities(h, rnd):
 def gen_histories(ctx, binp):
     rnd = random.Random(ctx.seed * 104729 + 10)
     ms = l2gen.machines(binp)
-    nworld, per, nops = (8, 2, 28) if ctx.quick else (60, 4, 45)
+    nworld, per, nops = (10, 2, 28) if ctx.quick else (60, 4, 45)
     worlds = l2gen.ta_worlds(ms, rnd, nworld) + l2gen.balloons_worlds(ms, rnd, nworld)
     hs = []
     for w in worlds:
@@ -188,6 +188,7 @@ def reduce_record(i, e):
         r["loaderr"] = ascii_(e.get("loaderr", ""))
         r["examples"] = {k: ascii_(v) for k, v in (e.get("examples") or {}).items()}
         r["diff"] = e.get("diff") or []
+        r["api_panics"] = [{"fn": x["fn"], "msg": ascii_(x["msg"])} for x in (e.get("api_panics") or [])]
     elif ev == "crash":
         r = {k: e.get(k) for k in ("ev", "snap", "variant", "point", "kind", "sys", "loaded", "eq_old", "eq_new", "fired", "matched", "save_reported")}
         r["loaderr"] = ascii_(e.get("loaderr", ""))
@@ -333,12 +334,14 @@ def vacuity(st, q):
     if len(st["snap_hashes"]) < (5 if q else 20):
         missing.append("distinct snapshots with a full fault enumeration: %d" % len(st["snap_hashes"]))
     bf = st["by_fault"]
-    for sysc in ("openat", "write", "close", "renameat"):
-        if not bf.get("kill:" + sysc):
-            missing.append("kill before " + sysc)
+    classes = {"open": ("open", "openat", "openat2", "creat"), "write": ("write", "pwrite64", "writev", "pwritev", "pwritev2"),
+               "close": ("close",), "rename": ("rename", "renameat", "renameat2", "link", "linkat")}
+    for cname, members in classes.items():
+        if not any(bf.get("kill:" + m) for m in members):
+            missing.append("kill before a %s call" % cname)
         for en in ("ENOSPC", "EIO"):
-            if not bf.get("error:%s:%s" % (sysc, en)):
-                missing.append("%s from %s" % (en, sysc))
+            if not any(bf.get("error:%s:%s" % (m, en)) for m in members):
+                missing.append("%s from a %s call" % (en, cname))
     for k in ("none", "torn-error", "torn-kill"):
         if not bf.get(k):
             missing.append("fault kind " + k)
@@ -386,7 +389,7 @@ def run(ctx):
         return p
 
     recs = run_shards(ctx, binp, hs, sub("run"))
-    nsn = 6 if q else 40
+    nsn = 10 if q else 40
     if want is not None:
         snaps, variants = [], {}
         for s in recs:
@@ -421,14 +424,17 @@ def run(ctx):
     mine = [v for v in viols if v["pred"] in PREDS]
 
     st = stats(recs)
-    if st["harness_errors"] or st["plan_errors"] or st["save_errors"]:
-        raise vlib.Inconclusive("harness trouble: %s" % json.dumps({k: st[k][:3] for k in ("harness_errors", "plan_errors", "save_errors")}))
-    if st["crash_unfired"]:
+    if st["harness_errors"]:
+        raise vlib.Inconclusive("harness trouble: %s" % json.dumps(st["harness_errors"][:3]))
+    # everything below guards an "exit 0"; it never hides a violation observed on the real code
+    if not mine and (st["plan_errors"] or st["save_errors"]):
+        raise vlib.Inconclusive("harness trouble: %s" % json.dumps({k: st[k][:3] for k in ("plan_errors", "save_errors")}))
+    if not mine and st["crash_unfired"]:
         raise vlib.Inconclusive("%d fault runs did not fire at the planned system call" % st["crash_unfired"])
     refused_controls = [k for k, v in st["unsafe_controls"].items() if v]
-    if refused_controls:
+    if not mine and refused_controls:
         raise vlib.Inconclusive("safe control paths were refused (the unsafe-path check would be vacuous): %s" % refused_controls)
-    if not ctx.replay:
+    if not ctx.replay and not mine:
         miss = vacuity(st, q)
         if st["old_eq_new"]:
             miss.append("a crash snapshot whose mutation did not change the projection")
